@@ -29,8 +29,8 @@ def _handler(signum, frame):
 
 signal.signal(signal.SIGVTALRM, _handler)
 
-DEFAULT_CPU_S = 2.0
-DEFAULT_LINES = 4_000_000
+DEFAULT_CPU_S = 1.0
+DEFAULT_LINES = 1_000_000
 
 
 def _run_traced(fn, max_lines):
